@@ -256,6 +256,19 @@ def coarse(F, b, seen=None):
         r = t.get('res', '')
         if t.get('local') and r in F.bodies:
             local_bodies[normname(r)] = F.bodies[r]
+        if not t.get('local'):
+            # a crate iterator handed to std (`extend(n.iter_out().map(..))`, `collect`, ..) is stepped by std: its next() runs
+            tys = list(t.get('gargs', []))
+            for a in t['args']:
+                if a.get('k') in ('move', 'copy'):
+                    tys.append(b['locals'][a['pl']['l']])
+            seen_t = set()
+            for ti in tys:
+                for ty in F.ty_walk(ti, seen_t):
+                    if ty['k'] == 'adt' and ty.get('local'):
+                        nq = '<%s as std::iter::Iterator>::next' % ty['p']
+                        if nq in F.bodies and F.bodies[nq]['q'] != b['q']:
+                            fn_items.append(F.bodies[nq])
         for a in t['args']:
             # a crate function passed by name (`collect_nodes(Node::is_root)`) is called by whoever receives it
             if a.get('k') == 'const' and a.get('fn') and a['fn'] in F.bodies:
@@ -267,6 +280,11 @@ def coarse(F, b, seen=None):
             continue
         if kind in ('BINOP', 'RET'):
             continue
+        if kind == 'AGGR' and name.startswith('F::') and name.count('::') >= 2:
+            # building a crate iterator value (IterOut { node, position: 0 }) has no effect of its own; its next() is what counts
+            adt = name.rsplit('::', 1)[0]
+            if any(('<%s%s as std::iter::Iterator>::next' % (fl_, adt[1:])) in F.bodies for fl_ in ('digraph', 'sync_digraph', 'ungraph', 'sync_ungraph')):
+                continue
         if kind == 'CALL' and name in local_bodies:
             out |= coarse(F, local_bodies[name], seen)
             continue
@@ -451,6 +469,10 @@ def sib(ctx):
                 same = sorted(pa_) == sorted(ps_)
                 out.append(Obl('SIB-IMPL', '%s|%s %s for %s' % (a, s, x[1].split('::')[-1], x[0]), '-', 'trait impl present on both sides with the same bounds', same,
                                'ok' if same else 'bounds differ: plain %s vs sync %s' % ([sorted(set(p) - set(q)) for p, q in zip(pa_, ps_)], [sorted(set(q) - set(p)) for p, q in zip(pa_, ps_)])))
+            elif x[1] == 'std::ops::Drop':
+                # Drop is not an optional API: it runs in every program that uses the type
+                out.append(Obl('SIB-IMPL', '%s|%s Drop for %s' % (a, s, x[0]), '-', 'no one-sided Drop impl (drop glue runs implicitly in programs common to both flavours)', False,
+                               'impl Drop for %s exists only in %s' % (x[0], a if x in ta else s)))
             else:
                 # one-sided API: listed in the evidence, not judged (the property is about the common API)
                 ctx.cache.setdefault('evidence_extra', {}).setdefault('C15', {}).setdefault('one_sided_impls', []).append('%s for %s only in %s' % (x[1], x[0], a if x in ta else s))
